@@ -6,6 +6,7 @@ import (
 	"fmt"
 	"go/constant"
 	"go/types"
+	"strconv"
 	"strings"
 )
 
@@ -644,6 +645,13 @@ func (e *Env) call(n *ECall) TVal {
 			return TVal{term: app("i-val", v.term), ty: e.goTy(t)}
 		}
 		return e.loadAt(app("i-val", v.term), t)
+	case "chr":
+		v := e.eval(n.Args[0])
+		if k, err := strconv.Atoi(v.term); err == nil && k >= 0 && k < 256 {
+			return TVal{term: e.c.reg.strLit(string([]byte{byte(k)})), ty: Ty{sort: "Str"}}
+		}
+		e.c.needSidx = true
+		return TVal{term: app("chr", v.term), ty: Ty{sort: "Str"}}
 	case "fresh":
 		v := e.eval(n.Args[0])
 		r := v.term
